@@ -135,9 +135,12 @@ def op_text(op, rng=None, style=0):
             a = abs(t)
             if style == 2 and a.denominator in (2, 4, 8):
                 num = ('-' if t < 0 else '+') + str(float(a))
+            elif style == 5 and a.denominator in (2, 4, 8):
+                # the spelling of SHELXL-written files and of CIF converters: 'Y+ 0.50000'
+                num = ('-' if t < 0 else '+') + ' %.5f' % float(a)
             else:
                 num = ('-' if t < 0 else '+') + '%d/%d' % (a.numerator, a.denominator)
-        body = (num + ''.join(terms)) if style not in (1, 4) else (''.join(terms) + num)
+        body = (num + ''.join(terms)) if style not in (1, 4, 5) else (''.join(terms) + num)
         if body.startswith('+'):
             body = body[1:]
         comps.append(body or '0')
